@@ -119,7 +119,9 @@ def parseAbsResps (s : String) : Option (List Spec.AbsResp) :=
 
 def runModel (flavour : String) (chunks : List Bytes) (term : Term) (extra : Nat) : List Item :=
   let fuel := chunks.flatten.length + 2 + extra
-  if flavour == "s" then sessionS fuel extra .initial { cap := DEFAULT_CAP, data := [] } chunks term
+  -- upper-case flavours = the same session with requests sent between the receive calls; `c` = the
+  -- async session with every pending receive future dropped: both must not change the results
+  if flavour == "s" || flavour == "S" then sessionS fuel extra .initial { cap := DEFAULT_CAP, data := [] } chunks term
   else sessionA fuel extra .initial [] chunks term
 
 /-- whole-stream reference (`decodeAll`): everything in one chunk -/
@@ -188,6 +190,10 @@ def handle (toks : List String) (impl : String) : Verdict :=
         else if !readsOk then "fail:unbounded-reads"
         else if "|".intercalate sessionPart != fmtItems whole then "fail:differs-from-whole-stream-decoding"
         else if !(agreesWithRef sessionPart (refItems stream) term) then "fail:differs-from-line-grammar"
+        -- calls after the end of the session: the decoding of the stream ended with the session's last
+        -- item (C02: whatever the segmentation; C10: an unclean end never turns into a clean one)
+        else if (implList.drop (implList.length - extra)).any (fun x => some x != sessionPart.getLast?) then
+          "fail:result-after-the-end-differs-from-the-end"
         else "ok"
       { model := model ++ "#" ++ reads, oracle, branch := branchOf items stream chunks.length }
     | _, _, _, _ => bad "proto.recv-args"
@@ -226,6 +232,9 @@ def handle (toks : List String) (impl : String) : Verdict :=
         else if implStream != s!"s:{hex stream}" then "fail:encoders-differ"
         else if sessionPart != exp then
           (if n == full.length then "fail:decoded-differs-from-encoded" else "fail:eof-classification")
+        -- calls after the end: an unclean end of stream stays unclean, a clean one clean (C10)
+        else if (implList.drop (implList.length - extra)).any (fun x => some x != (exp.splitOn "|").getLast?) then
+          "fail:result-after-the-end-differs-from-the-end"
         else "ok"
       let cutKind := if cut == "full" then "full" else if (exp.splitOn "|").getLast? == some "clean" then "cut-boundary" else "cut-inside"
       { model := model ++ "#" ++ reads, oracle, branch := s!"abs-{cutKind}-{branchOf items stream chunks.length}" }
